@@ -99,6 +99,28 @@ CLAIMED = {
             "Trusted: T-os path algebra axioms (validated only by sampling), A-toctou. DataFileWriter temp-file placement and FileLock "
             "paths are covered through the resolved-path contract of their callers.",
             "DESIGN.md 4/C17"),
+    "C04": ("Proof of exceptional postconditions on every fault edge and every asynchronous-interrupt edge (a BaseException "
+            "injected at each statement boundary of Transaction.commit): error classification at the commit point "
+            "(_write_hint_at_commit_point on local / CAS-S3 / plain-S3 backends), Transaction.commit returns True only if committed, a "
+            "storage or conflict raise implies not committed and a rollback, an ambiguous error keeps all written files, nothing "
+            "fallible runs after the commit point, _rollback deletes only files and markers the transaction wrote and never raises, "
+            "_finish_committed removes only markers and never raises, and the object invariant 'a later rollback()/__exit__ can "
+            "delete written files only if the pointer was certainly not flipped' holds at EVERY exit of commit().",
+            "Trusted: T-store fault model; MetadataManager.commit / _commit_file_ops applied at the contract 'returns => flipped "
+            "once, ConcurrentModificationException/other Exception => not flipped, AmbiguousCommitError => unknown' (proved for "
+            "MetadataManager.commit in C01/C08). Interrupts are modelled at statement boundaries of commit() itself, not inside "
+            "callees. Double faults only where a handler calls storage (cleanup paths, max_faults=2).",
+            "DESIGN.md 4/C04"),
+    "C08": ("Proof of MetadataManager.commit under a rely condition in which the lock excludes NOBODY and any other agent may "
+            "replace the pointer by conditional PUT at every action boundary: an acknowledged commit replaced exactly the pointer "
+            "version whose metadata was validated (tag at landing == tag at the validation read), base carried the validated "
+            "version's stamp, the new metadata file was written before the flip, at most one flip per call, a lost lock before the "
+            "commit point gives ConcurrentModificationException and no flip (FENCE), the conditional write uses the caller's etag "
+            "(ETAG-SRC) and maps precondition failures to conflicts, everything else to ambiguous (CAS-MAP).",
+            "Trusted: T-s3 conditional PUT evaluated atomically at landing time (modelled as the instant of the call; an in-flight "
+            "delay is covered by the environment steps before it), tags grow with every write and determine the content, nobody "
+            "deletes the pointer. Lease arithmetic of the lock itself is C19.",
+            "DESIGN.md 4/C08"),
 }
 
 NA_REASON = {
